@@ -523,7 +523,7 @@ FB_DAMAGES = ["none", "sx-zero", "sx-header", "sx-beyond", "sx-midobj", "sx-neg"
 FB_TEXT = "Hello fallback"
 
 
-def fb_doc(eol, eeol, damage, sameline=False):
+def fb_doc(eol, eeol, damage, sameline=False, tight=False):
     """a single-revision file with a classic table, every line ended by `eol` (table entries by the two-byte `eeol`), with one damage that makes the startxref offset or the table unreadable"""
     from lib.pdfgen import ser, Ref as R
     objs = {1: {"Type": "Catalog", "Pages": R(2)}, 2: {"Type": "Pages", "Kids": [R(4)], "Count": 1}, 3: {"Type": "Font", "Subtype": "Type1", "BaseFont": "Helvetica"},
@@ -535,7 +535,7 @@ def fb_doc(eol, eeol, damage, sameline=False):
         offs[n] = len(out)
         out += b"%d 0 obj" % n + (b"" if sameline else eol)          # sameline: the body starts right after `obj` (dictionaries, arrays and strings begin with a delimiter)
         if n == 5:
-            out += ser({"Length": len(content)}) + eol + b"stream\n" + content + b"\nendstream" + eol
+            out += ser({"Length": len(content)}) + eol + b"stream\n" + content + (b"" if tight else b"\n") + b"endstream" + eol      # tight: no end-of-line between the data and `endstream` (7.3.8.1: "should", Length is exact)
         else:
             out += ser(objs[n]) + eol
         out += b"endobj" + eol
@@ -581,8 +581,8 @@ def _fb_check(sel):
     from pdfminer.pdfdocument import PDFDocument
     from pdfminer.high_level import extract_text
     (eol, eeol), damage, caching = FB_EOLS[sel["eol"]], FB_DAMAGES[sel["damage"]], bool(sel["caching"])
-    data, objs, content = fb_doc(eol, eeol, damage, bool(sel.get("sameline")))
-    desc = "single-revision classic-table file (line ends %r%s), damage %s, caching=%s" % (eol, ", object bodies on the `obj` line" if sel.get("sameline") else "", damage, caching)
+    data, objs, content = fb_doc(eol, eeol, damage, bool(sel.get("sameline")), bool(sel.get("tight")))
+    desc = "single-revision classic-table file (line ends %r%s), damage %s, caching=%s" % (eol, (", object bodies on the `obj` line" if sel.get("sameline") else "") + (", `endstream` directly after the data" if sel.get("tight") else ""), damage, caching)
     try:
         doc = PDFDocument(PDFParser(io.BytesIO(data)), caching=caching)
         for n in (1, 2, 3, 4, 6, 7):
@@ -609,14 +609,15 @@ def h7_fallback(timeout=200, part=None, **kw):
     import pdfminer.pdfdocument as pd
 
     def fn(ex):
-        sel = {"eol": ex.choice(len(FB_EOLS), "eol"), "damage": ex.choice(len(FB_DAMAGES), "damage"), "caching": ex.choice(2, "caching"), "sameline": ex.choice(2, "sameline")}
+        sel = {"eol": ex.choice(len(FB_EOLS), "eol"), "damage": ex.choice(len(FB_DAMAGES), "damage"), "caching": ex.choice(2, "caching"), "sameline": ex.choice(2, "sameline"), "tight": ex.choice(2, "tight")}
         r = _fb_check(sel)
         ex.require(r is None, r or "", fb=sel)
 
     def conc(m, info):
         return {"fb": info["fb"]}
     return core.run_symx("H7_fallback", fn, [pd.PDFDocument.__init__, pd.PDFXRef.load, pd.PDFXRefFallback.load, pd.PDFDocument.find_xref, pd.PDFDocument.read_xref_from],
-                         {"damages": FB_DAMAGES, "line ends": [e[0].decode("latin-1").encode("unicode_escape").decode() for e in FB_EOLS], "caching": "on/off"}, timeout, concretize=conc, part=part)
+                         {"damages": FB_DAMAGES, "line ends": [e[0].decode("latin-1").encode("unicode_escape").decode() for e in FB_EOLS], "caching": "on/off", "object body": "on its own line / on the `obj` line", "endstream": "after an end-of-line / directly after the data"},
+                         timeout, concretize=conc, part=part)
 
 
 def replay(harness, inp):
